@@ -2,6 +2,7 @@ import GdcVerif.Driver.Util
 import GdcVerif.Model.Rct
 import GdcVerif.Model.Dwt53
 import GdcVerif.Model.Mqc
+import GdcVerif.Gen.J2kT1
 /-! Driver ops of C20: RCT, 5/3 DWT, MQ coder. -/
 namespace Drv.C20
 open Drv
@@ -87,6 +88,16 @@ def step? : List String → Option String
       | some e => "ok " ++ bytesToHex (Mqc.getBuffer e)
       | none => "panic"
     | _, _ => "bad-op"
+  | ["t1-lut", name, i] => some <| match i.toNat? with
+    | some i =>
+      let t := match name with
+        | "zc" => Gen.J2kT1.lutCtxnoZc
+        | "sc" => Gen.J2kT1.lutCtxnoSc
+        | _ => Gen.J2kT1.lutSpb
+      match t[i]? with
+      | some v => s!"ok {v}"
+      | none => "panic"
+    | none => "bad-op"
   | ["mq-raw", hx, n] => some <| match n.toNat? with
     | some n =>
       let rec go : Nat → Mqc.Dec → List Nat → Option (List Nat)
